@@ -45,7 +45,7 @@ ANCHORS = [
     ("deepali.spatial.composite", "CompositeTransform.update"),
 ]
 MODELS = X.NONRIGID + ["Translation", "EulerRotation", "AffineTransform", "Sequential"]
-OPS = ["data_", "inplace", "grid_", "condition_", "reset_parameters", "update", "call", "disp", "inverse", "clear_buffers", "copy_edit"]
+OPS = ["data_", "inplace", "grid_", "condition_", "reset_parameters", "update", "call", "disp", "inverse", "inv_read", "clear_buffers", "copy_edit"]
 N_CASES = {"quick": 300, "thorough": 12000}
 BUDGET = {"quick": 600, "thorough": 5400}
 
@@ -55,7 +55,7 @@ def plan(tier, seed):
 
 
 def mandatory(tier):
-    return [f"model/{m}" for m in MODELS] + [f"op/{o}" for o in OPS] + [f"kind/{k}" for k in X.KINDS] + [f"grid_/at_new_samples/{k}" for k in ("resize", "other_domain", "same_shape")]
+    return [f"model/{m}" for m in MODELS] + [f"op/{o}" for o in OPS] + [f"kind/{k}" for k in X.KINDS] + [f"grid_/at_new_samples/{k}" for k in ("resize", "other_domain", "same_shape")] + ["first_read_is_inverse"]
 
 
 class Subject:
@@ -220,8 +220,26 @@ def compare_fresh(ctx, subj, x, history_, info, what, inverse=None):
         elif what == "inverse":
             got = inverse(x)
             want = subj.fresh(invert=True)(x)
+        elif what == "inv_disp":  # the ready-made inverse read without going through its call hook
+            got = t.inv.disp()
+            want = subj.fresh(invert=True).disp()
+        elif what == "inv_forward":
+            got = t.inverse(link=bool(history_[-1].get("link")), update_buffers=True).forward(x)
+            want = subj.fresh(invert=True)(x)
     last = history_[-1]["op"] if history_ else "build"
     ctx.close(f"{what}_equals_fresh_transform_with_current_state", got, want, 2e-5 * (1 + float(want.abs().max())), key=f"stale/{what}_after_{last}/{'linear' if t.linear else 'nonrigid'}-{subj.kind}", history=list(history_), **info)
+
+
+def first_read_is_inverse(ctx, rng, subj, x, hist, info, desc):
+    r"""Every other time the first reader after a replacing operation is the ready-made inverse (no forward evaluation in between)."""
+    t = subj.t
+    # (not for callable parameters: a linked inverse is documented to read the parameters the forward transform
+    # predicted at its last update, so it legitimately lags until the forward transform is updated)
+    if subj.kind != "callable" and (hasattr(t, "invert") or hasattr(t, "exp")) and rng.integers(0, 2):
+        desc["first_read"] = "inverse"
+        desc["link"] = True
+        ctx.bucket("first_read_is_inverse")
+        compare_fresh(ctx, subj, x, hist, info, "inv_disp" if not t.linear else "inv_forward")
 
 
 def history(ctx, rng, info, subj, i):
@@ -246,6 +264,7 @@ def history(ctx, rng, info, subj, i):
                 new = t.params.detach().clone() * float(rng.uniform(0.3, 0.9))
                 t.data_(new)
                 hist.append(desc)
+                first_read_is_inverse(ctx, rng, subj, x, hist, info, desc)
                 compare_fresh(ctx, subj, x, hist, info, "disp")
                 compare_fresh(ctx, subj, x, hist, info, "tensor")
             elif op == "inplace":
@@ -269,6 +288,7 @@ def history(ctx, rng, info, subj, i):
                 desc.update(args)
                 t.condition_(args["scale"], shift=args["shift"])
                 hist.append(desc)
+                first_read_is_inverse(ctx, rng, subj, x, hist, info, desc)
                 compare_fresh(ctx, subj, x, hist, info, "disp")
                 compare_fresh(ctx, subj, x, hist, info, "tensor")
             elif op == "reset_parameters":
@@ -276,6 +296,7 @@ def history(ctx, rng, info, subj, i):
                     continue  # documented: predicted parameters come back with the next update
                 t.reset_parameters()
                 hist.append(desc)
+                first_read_is_inverse(ctx, rng, subj, x, hist, info, desc)
                 compare_fresh(ctx, subj, x, hist, info, "disp")
                 ctx.close("reset_gives_identity", t(x), np.broadcast_to(x.numpy(), t(x).shape), 1e-6, key="reset/identity", history=list(hist), **info)
             elif op == "update":
@@ -292,6 +313,13 @@ def history(ctx, rng, info, subj, i):
                     continue
                 inv = t.inverse(link=True, update_buffers=bool(rng.integers(0, 2)))
                 hist.append(desc)
+            elif op == "inv_read":
+                if subj.kind == "callable" or (not hasattr(t, "invert") and not hasattr(t, "exp")):
+                    continue
+                desc["link"] = bool(rng.integers(0, 2))
+                hist.append(desc)
+                compare_fresh(ctx, subj, x, hist, info, "inv_disp" if not t.linear else "inv_forward")
+                compare_fresh(ctx, subj, x, hist, info, "inv_forward")
             elif op == "clear_buffers":
                 t.clear_buffers()
                 hist.append(desc)
